@@ -1,6 +1,7 @@
 package type5
 
 import (
+	"bytes"
 	"crypto/sha256"
 	"fmt"
 
@@ -77,6 +78,11 @@ func (s BatchedPrivateTokenRequestState) FinalizeTokens(tokenResponseEnc []byte)
 	err := proof.UnmarshalBinary(group.Ristretto255, proofEnc)
 	if err != nil {
 		return nil, err
+	}
+	// The scalar decoder ignores the three unused top bits of each proof scalar: accept
+	// only the canonical encoding so that a response cannot be altered without being noticed
+	if canonicalProofEnc, err := proof.MarshalBinary(); err != nil || !bytes.Equal(canonicalProofEnc, proofEnc) {
+		return nil, fmt.Errorf("invalid batch token response proof encoding")
 	}
 
 	evaluation := &oprf.Evaluation{
